@@ -10,6 +10,7 @@ import (
 	"path/filepath"
 	"strings"
 	"sync"
+	"time"
 
 	c "verifharness/internal/common"
 	"verifharness/internal/storeh"
@@ -72,6 +73,64 @@ func runOne(id int, seed int64, nops int, base string, pool *storeh.Pool, replay
 		}
 		if op.Kind[0] != 'q' {
 			g.Resync()
+		}
+		// A by-hash reader against a reorganising writer: FetchHeader(tip)
+		// is interrupted right after its index lookup; another goroutine
+		// rolls the tip back and appends a different header at its height.
+		// The reader holds the read lock across both of its steps, so the
+		// writer has to wait (the hook gives up after 30 ms) and the reader
+		// gets the old tip; a reader that let the writer in between must at
+		// least not be handed the OTHER header under the old hash.
+		if !malformedHist && op.Kind[0] == 'q' && len(g.Chain) >= 3 && g.FChain < len(g.Chain) && r.Intn(4) == 0 {
+			tipTok := g.Chain[len(g.Chain)-1]
+			tipHash := pool.Hash(tipTok)
+			rb := Op{Kind: "brollback", N: 1, WF: true}
+			fresh := int64(1 + r.Intn(550))
+			for g.Used[fresh] || fresh == pool.Genesis {
+				fresh = int64(1 + r.Intn(550))
+			}
+			wr := Op{Kind: "bwrite", Es: []storeh.Ent{{A: fresh, B: int64(len(g.Chain) - 1)}}, WF: true}
+			done := make(chan struct{})
+			e.DB.AfterView = func() {
+				go func() {
+					defer close(done)
+					e.Exec(&rb)
+					e.Exec(&wr)
+				}()
+				select {
+				case <-done:
+				case <-time.After(30 * time.Millisecond):
+				}
+			}
+			hdr, _, ferr := e.BS.FetchHeader(&tipHash)
+			if e.DB.AfterView != nil {
+				// no read transaction was made: run the writer now
+				hk := e.DB.AfterView
+				e.DB.AfterView = nil
+				hk()
+			}
+			<-done
+			if ferr == nil && hdr.BlockHash() != tipHash {
+				h.ConcRead = "FetchHeader(old tip hash) raced with a rollback and an append at its height and returned the OTHER header"
+			}
+			h.Ops = append(h.Ops, rb, wr)
+			sb.WriteString("RB")
+			g.Resync()
+		}
+		// right after an append, look some of its hashes up through BOTH
+		// stores (each store has its own index object over the shared
+		// database: anything one of them remembers must not outlive a
+		// rollback done through the other)
+		if op.Kind == "bwrite" && op.Obs == "(ORes true)" && len(op.Es) > 0 && r.Intn(2) == 0 {
+			for k := 0; k < 2 && k < len(op.Es); k++ {
+				t := op.Es[r.Intn(len(op.Es))].A
+				for _, q := range []Op{{Kind: "qfhash", X: t, WF: true}, {Kind: "qheightof", X: t, WF: true}} {
+					q := q
+					e.Exec(&q)
+					h.Ops = append(h.Ops, q)
+					sb.WriteString("q")
+				}
+			}
 		}
 	}
 	g.Resync()
